@@ -72,6 +72,27 @@ func Shrink(c *Check, tier string, index int, seed uint64, tr Trace, target *Vio
 				}
 			}
 		}
+		// 2b. zero blocks (keeps alignment: useful for schedules and fault plans)
+		for chunk := len(best) / 2; chunk >= 2; chunk /= 2 {
+			for at := 0; at+chunk <= len(best); at += chunk {
+				nonzero := false
+				for _, c := range best[at : at+chunk] {
+					if c.V != 0 {
+						nonzero = true
+					}
+				}
+				if !nonzero {
+					continue
+				}
+				cand := append(Trace(nil), best...)
+				for i := at; i < at+chunk && i < len(cand); i++ {
+					cand[i].V = 0
+				}
+				if try(cand) {
+					progress = true
+				}
+			}
+		}
 		// 3. lower values
 		for i := 0; i < len(best); i++ {
 			if best[i].V == 0 {
